@@ -58,6 +58,18 @@ func TestSweep(t *testing.T) {
 			}
 		}
 	}
+	// mid-sized buffers, a quiet checkout, a few single samples written far apart through a full window
+	// (gaps of hundreds of untouched zeros in between), the length-L header put back
+	for ti, tn := range []string{"int16", "float32", "uint8", "int64", "NInt16"} {
+		for _, sh := range [][2]int{{1, 300}, {2, 450}, {1, 1000}, {3, 700}, {2, 2600}} {
+			for _, l := range []int{0, 1, sh[1]} {
+				for _, n := range []int{0, 137, 260, 600} {
+					ops := []Op{{Kind: "get", N: 1}, {Kind: "sparse", N: n + ti}, {Kind: "put"}, {Kind: "get", N: 1}, {Kind: "get", N: 1}}
+					Oracle.One(t, env, rec, "sweep", &Case{T: tn, C: sh[0], L: l, K: sh[1], Ops: ops})
+				}
+			}
+		}
+	}
 	// bursts: g buffers outstanding at once, all put back (oldest first / newest first), then g+1 gets
 	for _, tn := range []string{"int16", "float64", "uint8"} {
 		for _, sh := range [][3]int{{1, 0, 2}, {2, 1, 3}, {3, 2, 2}} {
